@@ -2,12 +2,13 @@
 # against the vstd contract of std::collections::HashMap -- unbounded in the number of tracked keys, with
 # the exact i64 no-overflow conditions as preconditions (not a 2^40 magnitude bound as in K-SLFU).
 #
-# Verified on the real bodies: increment_hashed_key, clear, room_left, fill_sample, increment, remove, update, hash_key.
+# Verified on the real bodies: increment_hashed_key, update_hashed_key, clear, room_left, fill_sample, increment, remove,
+# update, hash_key.
 # Contract only (external_body here, discharged on the real bodies by Kani unit K-SLFU):
 #   remove_hashed_key  (Option::inspect with a closure capturing `&mut self.used`: rejected by Verus)
-#   update_hashed_key  (HashMap::get_mut: no vstd specification, `&mut` returned from a call)
 #   get_max_cost       (AtomicI64::load: vstd gives it no postcondition; modelled as reading `atomic_val`)
-# Dependency contract added (assume_specification): <&HashMap as IntoIterator>::into_iter has the postcondition vstd
+# Dependency contracts added (assume_specification): HashMap::get_mut (vstd has none; stated with the final value of the
+# returned reference), and <&HashMap as IntoIterator>::into_iter has the postcondition vstd
 # gives HashMap::iter (std implements it as `self.iter()`); fill_sample's loop is proved against it.
 # Not in this unit: update_max_cost (interior mutability through &self), constructors.  They stay with K-SLFU.
 import os
@@ -83,6 +84,22 @@ pub assume_specification<'a, K, V, S, A: core::alloc::Allocator>[ <&'a HashMap<K
             &&& it.remaining().no_duplicates()
             &&& it.remaining().len() == m@.len()
             &&& (forall|j: int| 0 <= j < it.remaining().len() ==> m@.contains_pair(*(#[trigger] it.remaining()[j]).0, *it.remaining()[j].1))
+        };
+
+/// dependency contract of HashMap::get_mut (vstd has none): the entry of the key `k` borrows to, if any; the table after
+/// the borrow ends is the old table with that entry's value replaced by the final value of the reference
+pub assume_specification<'a, K: Eq + Hash + Borrow<Q>, V, S: BuildHasher, A: core::alloc::Allocator, Q: Hash + Eq + ?Sized>[ HashMap::<K, V, S, A>::get_mut ](m: &'a mut HashMap<K, V, S, A>, k: &Q) -> (r: Option<&'a mut V>)
+    ensures
+        obeys_key_model::<K>() && builds_valid_hashers::<S>() ==> {
+            match r {
+                Some(v) => exists|key: K| {
+                    &&& old(m)@.contains_key(key)
+                    &&& #[trigger] maps_borrowed_key_to_value(Map::<K, V>::empty().insert(key, *v), k, *v)
+                    &&& old(m)@[key] == *v
+                    &&& final(m)@ == old(m)@.insert(key, *final(v))
+                },
+                None => !contains_borrowed_key(old(m)@, k) && final(m)@ == old(m)@,
+            }
         };
 
 /// the value an AtomicI64 holds (vstd gives `load` no postcondition); written only by update_max_cost
@@ -201,7 +218,8 @@ ITEMS = [
     ensures final(self).inv(), final(self).costs() == Map::<u64, i64>::empty(), final(self).total() == 0,  // [C20]
         final(self).max() == old(self).max(), final(self).hasher() == old(self).hasher()''',
          props=['C20', 'C05']),
-    dict(kind='fn', file=F, impl=IMPL, name='update_hashed_key', ret='r', external_body=True, spec=H(UPD_SPEC, 'k'), props=['C20', 'C05']),
+    dict(kind='fn', file=F, impl=IMPL, name='update_hashed_key', ret='r', spec=H(UPD_SPEC, 'k'),
+         stmts={'B0/0~match self.key_costs.get_mut': 'proof { lemma_sum_insert(self.key_costs@, k, cost); }'}, props=['C20', 'C05']),
     dict(kind='fn', file=F, impl=IMPL, name='update', ret='r', spec=H(UPD_SPEC, 'old(self).hasher().spec_hash(k)'),
          props=['C20', 'C05']),
 ]
